@@ -38,7 +38,7 @@ ACT_NOCP   == 8
 SeqSpace   == 16777216  \* 2^24
 
 \* node n_i is reached at peer p_i (reports are sent to "<node id>:8805")
-NodePeer(n) == CASE n = "n1" -> "p1" [] n = "n2" -> "p2" [] n = "n3" -> "p3" [] n = "n4" -> "p4" [] OTHER -> "none"
+NodePeer(n) == CASE n = "n1" -> "p1" [] n = "n2" -> "p2" [] n = "n3" -> "p3" [] n = "n4" -> "p4" [] n = "n5" -> "p5" [] OTHER -> "none"
 RespTypes == {MT_HBRSP, MT_ASRSP, MT_ESTRSP, MT_MODRSP, MT_DELRSP}
 
 \* ------------------------------------------------------------------ small helpers
@@ -186,12 +186,17 @@ ValsMatch(r, p, x) ==
 \* produced reports (for known URRs) and emitted IEs must correspond one to one (token = start time)
 Delivered(ems, prod, urrs, sd) ==
   LET known == SelectSeq(prod, LAMBDA p : UrrOf(urrs, sd, p.urr) # {})
+      \* emitted in the order produced (the usual case): compare position by position - linear, for notifications with
+      \* hundreds of reports; any other order: search
+      aligned == Len(ems) = Len(known) /\ \A i \in DOMAIN ems : known[i].urr = ems[i].urr /\ known[i].vals.st = ems[i].vals.st
   IN /\ Len(ems) = Len(known)
-     /\ \A i \in DOMAIN ems :
-          \E j \in DOMAIN known :
-             /\ known[j].urr = ems[i].urr /\ known[j].vals.st = ems[i].vals.st
-             /\ ValsMatch(ems[i], known[j], CHOOSE x \in UrrOf(urrs, sd, ems[i].urr) : TRUE)
-     /\ NoDup([i \in DOMAIN ems |-> ems[i].vals.st])
+     /\ IF aligned
+        THEN \A i \in DOMAIN ems : ValsMatch(ems[i], known[i], CHOOSE x \in UrrOf(urrs, sd, ems[i].urr) : TRUE)
+        ELSE \A i \in DOMAIN ems :
+               \E j \in DOMAIN known :
+                  /\ known[j].urr = ems[i].urr /\ known[j].vals.st = ems[i].vals.st
+                  /\ ValsMatch(ems[i], known[j], CHOOSE x \in UrrOf(urrs, sd, ems[i].urr) : TRUE)
+     /\ Cardinality({ems[i].vals.st : i \in DOMAIN ems}) = Len(ems)
 
 \* ------------------------------------------------------------------ PDR <-> URR relation (C12)
 PdrKnown(created, sd, p) == <<sd, "pdr", p>> \in created
